@@ -66,6 +66,17 @@ Definition run_C20 (i : term) : term :=
     (* registry_never_loses_a_file: after the final cleanup (registry empty) no registered file is on
        disk; each file is registered once and removed once, so no os.Remove fails; no lock left held *)
     TL [TZ 0; TZ 0; TL []]
+  else if String.eqb op "e2e-fetch" then
+    (* glue: which sources of an invocation are fetched (M_Conc Part G) and that the result is their merge *)
+    let srcs := map (fun t => (gz (gn t 0), gz (gn t 1))) (gl (gn i 1)) in
+    TL [TZ (e2e_total srcs); of_bool (e2e_any srcs); TZ 0; TL []]
+  else if String.eqb op "e2e-perf" then
+    let vals := gzs (gn i 1) in
+    TL [TZ (sumZ vals); TZ 1; TZ 0; TZ (Z.of_nat (List.length vals)); TZ 0]
+  else if String.eqb op "e2e-session" then
+    TL [TZ 0; TL []; TZ (Z.of_nat (List.length (filter (fun l => contains_char ">" l) (gss (gn i 1)))))]
+  else if String.eqb op "e2e-webfirst" then
+    TL [TZ 1; of_zs (repeat 200 (Z.to_nat (gz (gn i 2))))]
   else if String.eqb op "cow1" then TZ 0   (* lost settings: get's lazy initialisation and update are single sections on one store *)
   else if String.eqb op "cow" then TZ 1
   else TL [TS "unknown-op"].
@@ -89,6 +100,10 @@ Definition spec_C20 (i o : term) : bool :=
   else if String.eqb op "once" then term_eqb (run_C20 i) o      (* every caller sees the one base *)
   else if String.eqb op "settings" then term_eqb (run_C20 i) o  (* no lost update, no stray temp file *)
   else if String.eqb op "fetch" then term_eqb (run_C20 i) o
+  else if String.eqb op "e2e-fetch" then term_eqb (run_C20 i) o    (* each source decided as it is alone; nothing blocked or leaked *)
+  else if String.eqb op "e2e-perf" then term_eqb (run_C20 i) o     (* every conversion its own output name, all sources merged, nothing left behind *)
+  else if String.eqb op "e2e-session" then term_eqb (run_C20 i) o  (* the session finishes, every redirected command wrote its file, no lock held *)
+  else if String.eqb op "e2e-webfirst" then term_eqb (run_C20 i) o (* the process survives its first concurrent requests, all answered 200 *)
   else if String.eqb op "cow1" then term_eqb (run_C20 i) o       (* a setting made during the first use is never lost *)
   else if String.eqb op "errpaths" then term_eqb (run_C20 i) o   (* rejected like one at a time, nothing blocked, no lock leaked *)
   else if String.eqb op "registry" then term_eqb (run_C20 i) o   (* no registered file leaked, no cleanup failed *)
